@@ -265,6 +265,91 @@ struct Driver {
         }
     }
 
+    // ---------------- iterators / circulators (C05): every class x centre x max_laps 1..3
+    template <class Pair> void dump_circ(const char* name, long centre, int laps, Pair pr) {
+        auto it = pr.first;
+        std::vector<int> seq;
+        size_t cap = 4096;
+        while (it.valid() && seq.size() < cap) { seq.push_back(it->idx()); ++it; }
+        bool endeq = (it == pr.second);
+        size_t cnt = 0;
+        for (auto jt = pr.first; jt != pr.second && cnt < cap; ++jt) ++cnt;
+        // forward j steps then back j steps, from begin, for a few j that stay on valid positions
+        bool backok = true;
+        size_t n = seq.size();
+        for (size_t j : {(size_t)1, n / 2, n > 0 ? n - 1 : 0}) {
+            if (n == 0 || j == 0 || j >= n) continue;
+            auto a = pr.first;
+            for (size_t i = 0; i < j; ++i) ++a;
+            for (size_t i = 0; i < j; ++i) --a;
+            if (!(a == pr.first) || a->idx() != pr.first->idx()) backok = false;
+        }
+        int peh = -2, pev = -1;
+        if (n > 0) { auto e = pr.second; --e; peh = e->idx(); pev = e.valid() ? 1 : 0; }
+        fprintf(OUT, "it_%s %ld %d %d %zu %d %d %d %zu", name, centre, laps, endeq ? 1 : 0, cnt, backok ? 1 : 0, peh, pev, n);
+        for (int x : seq) fprintf(OUT, " %d", x);
+        fputc('\n', OUT);
+    }
+    template <class Pair> void dump_entity_iter(const char* name, Pair pr) {
+        auto it = pr.first;
+        std::vector<int> seq;
+        while (it.valid() && seq.size() < 100000) { seq.push_back(it->idx()); ++it; }
+        bool endeq = (it == pr.second);
+        size_t cnt = 0;
+        for (auto jt = pr.first; jt != pr.second && cnt < 100000; ++jt) ++cnt;
+        bool backok = true;
+        size_t n = seq.size();
+        for (size_t j : {(size_t)1, n / 2, n > 0 ? n - 1 : 0}) {
+            if (n == 0 || j == 0 || j >= n) continue;
+            auto a = pr.first;
+            for (size_t i = 0; i < j; ++i) ++a;
+            for (size_t i = 0; i < j; ++i) --a;
+            if (!(a == pr.first)) backok = false;
+        }
+        int peh = -2, pev = -1;
+        if (n > 0) { auto e = pr.second; --e; peh = e->idx(); pev = e.valid() ? 1 : 0; }
+        fprintf(OUT, "ite_%s 0 1 %d %zu %d %d %d %zu", name, endeq ? 1 : 0, cnt, backok ? 1 : 0, peh, pev, n);
+        for (int x : seq) fprintf(OUT, " %d", x);
+        fputc('\n', OUT);
+    }
+    void dump_iters() {
+        dump_entity_iter("v", m.vertices()); dump_entity_iter("e", m.edges()); dump_entity_iter("he", m.halfedges());
+        dump_entity_iter("f", m.faces()); dump_entity_iter("hf", m.halffaces()); dump_entity_iter("c", m.cells());
+        for (int laps = 1; laps <= 3; ++laps) {
+            for (int v = 0; v < nV(); ++v) {
+                VertexHandle h(v);
+                dump_circ("voh", v, laps, m.outgoing_halfedges(h, laps)); dump_circ("vih", v, laps, m.incoming_halfedges(h, laps));
+                dump_circ("vv", v, laps, m.vertex_vertices(h, laps)); dump_circ("ve", v, laps, m.vertex_edges(h, laps));
+                dump_circ("vhf", v, laps, m.vertex_halffaces(h, laps)); dump_circ("vf", v, laps, m.vertex_faces(h, laps));
+                dump_circ("vc", v, laps, m.vertex_cells(h, laps));
+            }
+            for (int e = 0; e < nE(); ++e) {
+                EdgeHandle h(e);
+                dump_circ("ehf", e, laps, m.edge_halffaces(h, laps)); dump_circ("ef", e, laps, m.edge_faces(h, laps)); dump_circ("ec", e, laps, m.edge_cells(h, laps));
+            }
+            for (int e = 0; e < 2 * nE(); ++e) {
+                HalfEdgeHandle h(e);
+                dump_circ("hehf", e, laps, m.halfedge_halffaces(h, laps)); dump_circ("hef", e, laps, m.halfedge_faces(h, laps)); dump_circ("hec", e, laps, m.halfedge_cells(h, laps));
+            }
+            for (int f = 0; f < nF(); ++f) {
+                FaceHandle h(f);
+                if (m.face(h).halfedges().empty()) continue;
+                dump_circ("fv", f, laps, m.face_vertices(h, laps)); dump_circ("fhe", f, laps, m.face_halfedges(h, laps)); dump_circ("fe", f, laps, m.face_edges(h, laps));
+            }
+            for (int f = 0; f < 2 * nF(); ++f) {
+                HalfFaceHandle h(f);
+                if (m.face(FaceHandle(f / 2)).halfedges().empty()) continue;
+                dump_circ("hfv", f, laps, m.halfface_vertices(h, laps)); dump_circ("hfhe", f, laps, m.halfface_halfedges(h, laps)); dump_circ("hfe", f, laps, m.halfface_edges(h, laps));
+                dump_circ("bhfhf", f, laps, m.boundary_halfface_halffaces(h, laps));
+            }
+            for (int c = 0; c < nC(); ++c) {
+                CellHandle h(c);
+                dump_circ("cv", c, laps, m.cell_vertices(h, laps)); dump_circ("che", c, laps, m.cell_halfedges(h, laps)); dump_circ("ce", c, laps, m.cell_edges(h, laps));
+                dump_circ("chf", c, laps, m.cell_halffaces(h, laps)); dump_circ("cf", c, laps, m.cell_faces(h, laps)); dump_circ("cc", c, laps, m.cell_cells(h, laps));
+            }
+        }
+    }
+
     // ---------------- lookups (C10): exhaustive over small argument spaces
     void dump_lookups() {
         bool vbu = m.has_vertex_bottom_up_incidences(), ebu = m.has_edge_bottom_up_incidences(), fbu = m.has_face_bottom_up_incidences();
@@ -387,6 +472,7 @@ struct Driver {
         dump();
         if ((int)rng.below(100) < query_pct) dump_queries();
         if ((profile == "c10" || profile == "c09") && rng.chance(1, 4)) dump_lookups();
+        if (profile == "c05" && rng.chance(1, 8)) dump_iters();
         fputs("E\n", OUT);
         fflush(OUT);
     }
@@ -747,7 +833,7 @@ struct Driver {
             if (w < 35 || nent < 8) grow(); else if (w < 80) gen_malformed(); else if (w < 88) gen_delete(); else if (w < 94) gen_mode(); else { Op o = mk("add_edge", {0, 0, 0}); std::vector<int> lv = live(0); if (lv.size() >= 2) { o.a[0] = rng.pick(lv); o.a[1] = rng.pick(lv); if (o.a[0] != o.a[1]) exec(o); } }
         } else if (profile == "c17") {
             if (w < 30 || nent < 10) grow(); else if (w < 75) gen_swap(); else if (w < 85) gen_delete(); else if (w < 93) gen_mode(); else gen_prop();
-        } else if (profile == "c09" || profile == "c10") {
+        } else if (profile == "c09" || profile == "c10" || profile == "c05") {
             if (w < 50 || nent < 10) grow(); else if (w < 72) gen_delete(); else if (w < 82) gen_swap(); else if (w < 95) gen_mode(); else gen_prop();
         } else if (profile == "c04") {
             if (w < 40 || nent < 10) grow(); else if (w < 75) gen_delete(); else if (w < 92) gen_mode(); else gen_prop();
